@@ -17,13 +17,16 @@ TECHNIQUE = ("Coq theorems by induction on the sweep's fuel (every object the lo
              "translator-generated instruction classes of C01; model tied to the source by a differential run on assembled "
              "streams, mutations, truncations and random buffers, with the recovery and re-encoding clauses decided by the "
              "oracle on every run")
-LEVEL_TEXT = ("Unbounded proof: for every byte string, declared size, start offset and ODEX flag the modelled sweep ends within "
+LEVEL_TEXT = ("Unbounded proof: (1) for every byte string, declared size, start offset and ODEX flag the modelled sweep ends within "
               "(length + 1) iterations, and every object it yields lies entirely inside the buffer and inside the declared "
-              "size and is at least two bytes long. Re-encoding of ordinary instructions to their bytes is the per-class "
-              "theorem of C01 (decode then get_raw gives the bytes); re-encoding of the three payload kinds and the exact "
-              "recovery of assembled streams (every valid opcode, 0xfe/0xff with every register byte, payloads of random sizes "
-              "and alignment) are not proved: they are compared model-vs-code and checked against the assembled description on "
-              "every run.")
+              "size and is at least two bytes long; (2) for every stream assembled from chunks whose decoding does not depend "
+              "on what follows - every instruction that its translated constructor accepts on exactly its own bytes (all 36 "
+              "classes read the first len bytes only), and every packed-switch, sparse-switch and fill-array-data payload of "
+              "any size, keys, width and data - followed by anything, the sweep over the declared size yields exactly those "
+              "items, in order, at their byte offsets, and ends without error; (3) the three payloads re-encode (get_raw) to "
+              "their bytes. Re-encoding of ordinary instructions is the per-class theorem of C01. The same statements are "
+              "checked against the assembled description on every run (every valid opcode, 0xfe/0xff with every register byte, "
+              "payloads of random sizes and alignment).")
 LEVEL_NOTE = ("Trusted: Coq kernel; coq/Dex/SweepModel.v as a rendering of LinearSweepAlgorithm.get_instructions and of "
               "PackedSwitch/SparseSwitch/FillArrayData (constructor, get_length, get_raw); the ordinary instructions are the "
               "generated classes of C01 (translator, coq/Lib/Struct.v); laziness of the Python generator is rendered as 'the "
